@@ -445,8 +445,25 @@ def run(ctx):
         ctx.case(dict(kind="legacy", mode=mode, n=None), nontrivial=False)
         ask(dict(op="C14.token_arr", mode=mode, n=None), ("token_arr", mode, None, t.token_arr))
 
+    # ---- 3b. the vocabulary of a size must not depend on which sizes were built before it: FRESH tokenizer objects in descending and
+    #          interleaved order (the ascending pass above used cached objects), every mode, compared with the ascending result
+    order = list(range(50, 0, -1)) + [7, 50, 3, 49, 12, 2, 31, 30]
+    for mode in MODES:
+        for n in (order if not ctx.quick else order[:6] + order[40:] ):
+            fresh = R["MT"](tokenization_mode=R["TM"][mode], max_grid_size=n)
+            want = list(_legacy(R, mode, n).token_arr)
+            got = list(fresh.token_arr)
+            ctx.case(dict(kind="legacy-order", mode=mode, n=n), nontrivial=True); ctx.count("legacy_fresh_in_other_order")
+            if got != want or dict(fresh.tokenizer_map) != {t: i for i, t in enumerate(want)}:
+                k = next((i for i, (a, b) in enumerate(zip(got, want)) if a != b), min(len(got), len(want)))
+                B.violate("legacy", f"MazeTokenizer({mode}, max_grid_size={n}) built after larger sizes has another vocabulary than the one built first: position {k} holds "
+                          f"{got[k] if k < len(got) else None!r} instead of {want[k] if k < len(want) else None!r}", dict(kind="legacy", mode=mode, n=n, order=True))
+                break
+
     # ---- 4. codecs
     codec = []   # (kind, voc, seq)
+    for seq in (["(", "3", ",", "4", ")"], ["(", "(0,1)"], [",", ")", "("], ["(", "<PATH_START>", "(1,1)", ")"], ["(", ")"], ["(", "7", ")", "(2,3)"]):
+        if all(t in R["MAP"] for t in seq): codec.append(("encode", "modular", seq))
     for i in range(len(L)):                      # every single token / id of the modular vocabulary
         codec.append(("encode", "modular", [L[i]])); codec.append(("decode", "modular", [i]))
     for b in (-1, -2, -4095, -4096, -4097, 4096, 4097, 8192, 2 ** 31, -(2 ** 31), 2 ** 63, 10 ** 12):
